@@ -552,9 +552,11 @@ sec_case_run(const uint8_t *text, size_t len, uint32_t mcode, const char *gen_la
 
 /* control bytes: everything below SP except HTAB, plus DEL */
 static uint8_t CTLS[32]; static int NCTLS = 0;
+/* neighbours of the three exempted octets HTAB(09) LF(0a) CR(0d) and the range ends */
+static const uint8_t CTLS_BOUNDARY[] = { 0x00, 0x01, 0x08, 0x0a, 0x0b, 0x0c, 0x0d, 0x0e, 0x1f, 0x7f };
 
 static void
-hdr_block(const int *fc, int n, int do_ctl, int do_spc, int do_ins) {
+hdr_block(const int *fc, int n, int do_ctl /* 0 none, 1 boundary set, 2 all 32 */, int do_spc, int do_ins) {
 	tb_t t; gfld_t gf[MAXF]; size_t len; uint8_t *buf = NULL; size_t hdr = 0; fld_t rf[MAXF]; int nrf = 0, have = 0, q, i, c, nctx;
 	int mine_get, mine_cnt;
 
@@ -638,7 +640,7 @@ hdr_block(const int *fc, int n, int do_ctl, int do_spc, int do_ins) {
 		blen = strlen(CTX[c].line); for (i = 0; i < n; i ++) blen += 2 + FLEN[fc[i]];
 		/* (1) one control byte inserted at every position 0..blen.  Contexts: GET and POST. */
 		if (do_ctl && c < 2) {
-			ctls = CTLS; nctls = NCTLS;
+			if (do_ctl == 2) { ctls = CTLS; nctls = NCTLS; } else { ctls = CTLS_BOUNDARY; nctls = (int)sizeof(CTLS_BOUNDARY); }
 			for (pos = 0; pos <= blen; pos ++) for (ci = 0; ci < nctls; ci ++) {
 				n_edit_ctl ++;
 				if (!vh_begin("http_req_sec_chk")) continue;
@@ -682,10 +684,13 @@ gen_hdr_all(void) {
 	for (n = 0; n <= nmax; n ++) {
 		for (i = 0; i < n; i ++) fc[i] = 0;
 		for (;;) {
-			/* edit bases: clean blocks of <= 2 fields (quick) / <= 3 fields (thorough) get every edit; quick
-			 * additionally applies the SP-before-colon edit to 3-field bases */
-			int full = n <= (vh_thorough ? 3 : 2);
-			hdr_block(fc, n, full, full || n == 3, full);
+			/* edit bases: clean blocks of <= 2 fields get every edit with all 32 control bytes (both tiers);
+			 * clean 3-field blocks: quick = SP-before-colon only; thorough = every edit, control bytes
+			 * from the 10-element boundary set (the adjacent-byte contexts of an insertion are the same
+			 * as in 2-field blocks) */
+			if (n <= 2) hdr_block(fc, n, 2, 1, 1);
+			else if (n == 3) hdr_block(fc, n, vh_thorough ? 1 : 0, 1, vh_thorough);
+			else hdr_block(fc, n, 0, 0, 0);
 			for (i = n - 1; i >= 0; i --) { if (++ fc[i] < NFC) break; fc[i] = 0; }
 			if (i < 0) break;
 		}
